@@ -12,7 +12,7 @@
 //! `--mode c04` changes the mix (valid documents only, more of them) and the name of the spec-side
 //! predicate (`holds4`, C04/Corr.v); everything else is shared.
 use nitrogql_ast::operation::OperationType;
-use nitrogql_checker::{CheckError, CheckErrorMessage, TypeKind};
+use nitrogql_checker::{CheckError, CheckErrorMessage};
 use serde_json::{json, Value};
 use std::collections::{BTreeMap, BTreeSet, HashSet};
 use std::fmt::Write as _;
@@ -28,12 +28,8 @@ use verif_harness::*;
 fn optype(t: &OperationType) -> &'static str {
     match t { OperationType::Query => "Query", OperationType::Mutation => "Mutation", OperationType::Subscription => "Subscription" }
 }
-fn tkind(k: &TypeKind) -> &'static str {
-    match k {
-        TypeKind::Scalar => "KScalar", TypeKind::Object => "KObject", TypeKind::Interface => "KInterface",
-        TypeKind::Union => "KUnion", TypeKind::Enum => "KEnum", TypeKind::InputObject => "KInputObject",
-    }
-}
+/// error::TypeKind is not exported by the crate; its Debug text is the constructor name
+fn tkind(k: &impl std::fmt::Debug) -> String { format!("K{:?}", k) }
 fn msg_coq(m: &CheckErrorMessage) -> String {
     use CheckErrorMessage::*;
     let s = |x: &str| coq_str(x);
@@ -219,8 +215,14 @@ fn bad_lit(rng: &mut Rng, s: &Schema, ty: &Ty, depth: usize) -> Option<String> {
                 Some(Kind::Input { fields }) => {
                     let required: Vec<&Arg> = fields.iter().filter(|f| f.ty.is_nonnull() && f.default.is_none()).collect();
                     let base = |rng: &mut Rng, skip: Option<&str>| -> Vec<String> {
-                        fields.iter().filter(|f| Some(f.name.as_str()) != skip && (f.ty.is_nonnull() && f.default.is_none() || (depth < 2 && rng.chance(1, 3))))
-                            .map(|f| format!("{}: {}", f.name, if depth < 2 { valid_lit(rng, s, &f.ty) } else { shallow_lit(rng, s, &f.ty) })).collect()
+                        let mut v = vec![];
+                        for f in fields {
+                            if Some(f.name.as_str()) == skip { continue; }
+                            if f.ty.is_nonnull() && f.default.is_none() || (depth < 2 && rng.chance(1, 3)) {
+                                v.push(format!("{}: {}", f.name, if depth < 2 { valid_lit(rng, s, &f.ty) } else { shallow_lit(rng, s, &f.ty) }));
+                            }
+                        }
+                        v
                     };
                     match rng.below(5) {
                         0 => { let mut p = base(rng, None); p.push("zz: 1".into()); Some(format!("{{{}}}", p.join(", "))) }
